@@ -317,3 +317,7 @@ func nondetBytes(n int) []byte {
 	}
 	return make([]byte, n)
 }
+
+// lockHeld / readLockHeld: engine ghost state of a sync.Mutex / sync.RWMutex (natively permissive).
+func lockHeld(mu interface{}) bool     { return false }
+func readLockHeld(mu interface{}) bool { return false }
